@@ -228,6 +228,12 @@ def sweep_to_proto(
                 if key not in sweep_dict:
                     sweep_dict[cast(str, key)] = []
                 sweep_dict[cast(str, key)].append(cast(float, param_resolver.value_of(key)))
+        if any(len(values) != len(sweep) for values in sweep_dict.values()):
+            # A zip of per-parameter points can only express resolvers over the same parameters.
+            raise ValueError(
+                f'cannot convert to v2 Sweep proto: {sweep} (its resolvers do not all assign '
+                'the same parameters)'
+            )
         out.sweep_function.function_type = run_context_pb2.SweepFunction.ZIP
         for key in sweep_dict:
             sweep_to_proto(
